@@ -509,6 +509,53 @@ func witnessIndexFlushFault(c *core.Ctx, db string, step int) error {
 	return r.err
 }
 
+// witnessNameLimits: max-namespaces = 1, max-metrics = 2 (the tests are `limit < ids handed out`, so two
+// namespaces and three metric names are admitted). Refused names are asked for again — before and after a
+// metadata flush (the refused createFn left an empty bucket map in the mutable table), after a failed flush,
+// after reopen — they stay refused and are not found; every admitted name keeps its id; with the limits
+// lifted the refused names get fresh ids.
+func witnessNameLimits(c *core.Ctx, db string) error {
+	r, err := newRunner(c, db, 1, 0)
+	if err != nil {
+		return err
+	}
+	defer r.close()
+	r.o.tag = "name-limits-"
+	r.limits(1, 2)
+	all := func() {
+		r.metric(0, 0)
+		r.metric(1, 0)
+		r.metric(2, 0) // third namespace: refused
+		r.metric(0, 1)
+		r.metric(0, 2) // fourth metric name: refused
+		r.metric(1, 3) // refused, in the other namespace's bucket
+	}
+	all()
+	r.mprepare()
+	r.metric(5, 0) // refused between PrepareFlush and Flush: namespace bucket 'c' (nsString(5) = "cns5") is new
+	r.mflush()
+	all()
+	r.mprepare()
+	r.mflushfail()
+	all()
+	r.mprepare()
+	r.mflush()
+	r.reopen()
+	all()
+	r.mflushcrash(3)
+	all()
+	r.limits(0, 0)
+	all()
+	r.metric(5, 0)
+	r.mprepare()
+	r.mflush()
+	r.reopen()
+	all()
+	c.Branch("witness-name-limits")
+	c.NonTrivial()
+	return r.err
+}
+
 // witnessBucketCacheRace: three parties on the metric dictionary's LRU bucket cache.
 //  1. a first metric is frozen by PrepareFlush, metric x is created (no bucket on disk yet: nothing is
 //     cached), the flush persists the first metric: the metric bucket exists on disk, without x; the
